@@ -117,6 +117,11 @@ class Property(object):
 class SymCtx(object):
     native = False
 
+    @property
+    def concrete(self):
+        """True when the interpreter runs on fixed concrete inputs (CPython cross-check)"""
+        return self.fixed is not None
+
     def __init__(self, it, fixed=None):
         self.it = it
         self.fixed = fixed              # name -> concrete value (cross-check mode)
@@ -232,6 +237,10 @@ class SymCtx(object):
                 out.append(tuple(Num("float", r=t.arg(i)) for i in range(t.num_args())))
         return out
 
+    def fn(self, f):
+        """a python function of numbers, callable by the interpreted code"""
+        return lambda it, *a: f(*[Num.of(x) if isinstance(x, (int, float)) and not isinstance(x, bool) else x for x in a])
+
     def min_args(self):
         """argument tuples of the min(...) calls made by the code so far"""
         return list(self.it.info.get("min_args", []))
@@ -250,6 +259,7 @@ def _import(modname):
 
 class NativeCtx(object):
     native = True
+    concrete = True
 
     def __init__(self, values=None, rng=None):
         self.values = values            # name -> python value (replay) or None (sampling)
@@ -370,6 +380,12 @@ class NativeCtx(object):
 
     def uf_terms(self, name):
         return None
+
+    def fn(self, f):
+        return f
+
+    def min_args(self):
+        return []
 
     def fresh_int(self, name):
         raise Rejected("existential witness needed natively: " + name)
